@@ -99,7 +99,7 @@ def execute(G, c):
         call = ("getnext", rb.oid_text(c["base"]))
     else:
         call = ("getbulk", rb.oid_text(c["base"]), c["chunk"])
-    out = drivers.run_api(G, c["driver"], cfg, call, handler, timeout=2.0, max_steps=len(vbs) + 3)
+    out = drivers.run_api(G, c["driver"], cfg, call, handler, timeout=5.0, max_steps=len(vbs) + 3)
     sig = value_signature(vals)
     if out.kind != "ok":
         raise core.Failure("no-result:" + sig, "%s(%s) over %s gave %r for a well-formed response" % (op, call[1:], cfg.describe(), out))
